@@ -254,11 +254,21 @@ func (c *Ctx) startupReconciliation(specs ...reconSpec) {
 		}
 		c.verdict(okLast && len(reads) >= 1, c.nm(fn)+" | the index tip is compared with the file's last record", c.P.Pos(fn.Pos()), "readHeader(height computed from the file size) feeds the comparison", "the record compared with the index tip is not read at the height computed from the file's size: when the file is ahead of the index the surplus records are not noticed", c.ats(reads)...)
 		geq := boolIs("tipHash.IsEqual(latest file record)", find(fn, callTo(isEq)), 0, true)
-		// (a constructor that refuses to open a store it cannot reconcile
-		// hands nothing out)
-		c.refusalOK = true
-		c.mustFollow(fn, "index tip != last file record", c.failEdges(geq), callTo(trunc), "truncateHeaders(fileHeight-tipHeight)", nil, 1)
-		c.refusalOK = false
+		// the one state truncation cannot repair is an index tip beyond the
+		// end of the file (the subtraction below wraps and the truncation
+		// fails): refusing to open on the edge where the tip height read
+		// from the index is greater than the height computed from the file
+		// size changes nothing; every other refusal leaves a store that a
+		// crash produced unopened
+		isTipH := func(v ssa.Value) bool {
+			e, ok := ir.Strip(v).(*ssa.Extract)
+			return ok && e.Index == 1 && valIsCallTo(tip)(e.Tuple)
+		}
+		isFileH := func(v ssa.Value) bool {
+			return ir.InfluencedBy(v, isSize) && !ir.InfluencedBy(v, valIsCallTo(tip))
+		}
+		ahead, _ := relGuard("index tip height > file height", fn, isTipH, isFileH, token.GTR)
+		c.mustFollow(fn, "index tip != last file record", c.failEdges(geq), callTo(trunc), "truncateHeaders(fileHeight-tipHeight)", ahead.cut(), 1)
 		c.guarded(fn, errNil("truncateHeaders", find(fn, callTo(trunc)), 0), 1, "return store after reconciliation", nil, 0, gDominate)
 	}
 }
